@@ -14,7 +14,10 @@ RULE = ("one case = a history of 1-2 recorded operations on one real TapeRecorde
         "resolver / unserializable argument / capture index out of range / failing fallback function; failing input and "
         "output data handlers; a data handler that discards; unserializable values so that copy and save fail; failing or "
         "junk metadata extractors; storage failing on save; discard / forced sampling / enable / disable from the operation "
-        "and from intercepted bodies; sampling rates); non-trivial = at least one interception; distinct = distinct history")
+        "and from intercepted bodies; sampling rates); probes on the real decorators with a logging hook of the service (filter / "
+        "handler / formatter on the recorder's logger at INFO or DEBUG) that reads a public property of the recorder for every "
+        "record while the operation forces sampling / discards / merely intercepts: the decorated operation ends (watchdog; a "
+        "hang is a violation) as the undecorated one; non-trivial = at least one interception; distinct = distinct history")
 ASSUMPTIONS = ["threads: the recorder methods that touch the active recording are modelled as sequences of accesses to the "
                "three shared fields (Recorder/Threads.v), preemption possible between any two accesses, any number of "
                "threads, any schedule; a region under self._finalization_lock counts as one step (static gate on the "
@@ -116,7 +119,20 @@ def probe_cases():
                 out.append(dict(kind="probe", probe="lazy", value=v, enabled=enabled, site=site))
     for sh in SHAPES:
         out.append(dict(kind="probe", probe="shape", shape=sh))
+    # a logging hook of the service reads the recorder's public properties for every record of the recorder's logger
+    k = 0
+    for hook in LOG_HOOKS:
+        for reads in LOG_READS:
+            for action in LOG_ACTIONS:
+                k += 1
+                out.append(dict(kind="probe", probe="loghook", hook=hook, reads=reads, action=action,
+                                level=["INFO", "DEBUG"][k % 2], term=["return", "raise"][(k // 2) % 2]))
     return out
+
+
+LOG_HOOKS = ["filter", "handler", "formatter"]
+LOG_READS = ["current_recording_id", "in_recording_mode", "is_recording_sample_forced", "in_playback_mode"]
+LOG_ACTIONS = ["force-op", "force-body", "force-ignored", "discard", "plain"]
 
 
 def _in(alias, arg, result, nxt):
@@ -221,6 +237,16 @@ def direct(case, obs):
                 fails.append(("lazy-value-consumed", "%s: the returned object was advanced / consumed by the recorder" % who))
             if obs["bodies"] != 1:
                 fails.append(("trace-differs", "%s: the wrapped body ran %d times" % (who, obs["bodies"])))
+        elif case["probe"] == "loghook":
+            who = ("a logging %s that reads tape_recorder.%s for every record (recorder's logger at %s), operation action '%s'" %
+                   (case["hook"], case["reads"], case["level"], case["action"]))
+            if obs["hung"]:
+                fails.append(("operation-hangs", "%s: the decorated operation did not end within the watchdog time (the "
+                              "undecorated one gives %s)" % (who, obs["twin"])))
+            elif not obs["same_outcome"]:
+                fails.append(("outcome-differs", "%s: undecorated %s, decorated %s" % (who, obs["twin"], obs["decorated"])))
+            elif not obs["same_bodies"]:
+                fails.append(("trace-differs", "%s: the wrapped bodies were not executed as by the undecorated call" % who))
         else:
             who = "recording disabled, call shape %s" % case["shape"]
             if not obs["same_outcome"]:
@@ -255,6 +281,9 @@ _hist_features, _hist_nontrivial = features, nontrivial     # (from rec_common)
 
 def features(case):      # noqa: F811
     if case.get("kind") == "probe":
+        if case["probe"] == "loghook":
+            return {"probe:loghook", "loghook:" + case["hook"], "loghook-reads:" + case["reads"], "loghook-action:" + case["action"],
+                    "loghook-level:" + case["level"]}
         return {"probe:" + case["probe"], "probe-" + case["probe"] + ":" + (case.get("value") or case.get("shape"))}
     if rc.is_race(case):
         return rc.features(case)
